@@ -304,7 +304,16 @@ def _variants():
         V("all-starts-at-1", replace_stmt(PS, "Av._all", "length = 0", "length = 1"), "fire-or-undecided", "C02-S1"),
         V("count-bypasses-ensure", replace_stmt(PS, "Av.count", "return len(self._get_level(length))", "return len(self.cache[length])"), "fire", "C02-S1"),
         V("get-level-wrong-index", replace_expr(PS, "Av._get_level", "self.cache[level_number]", "self.cache[-1]"), "fire-or-undecided", "C02-S1"),
+        V("ensure-range-exclusive", replace_expr(PS, "Av._ensure_level_classical_pattern_basis", "range(len(self.cache), level_number + 1)", "range(len(self.cache), level_number)"), "fire", "C02-E1"),
+        V("ensure-mesh-range-exclusive", replace_expr(PS, "Av._ensure_level_mesh_pattern_basis", "range(len(self.cache), level_number + 1)", "range(len(self.cache), level_number)"), "fire", "C02-E1"),
+        V("ensure-append-conditional", replace_stmt(PS, "Av._ensure_level_classical_pattern_basis", "self.cache.append(new_level)", "if new_level:\n    self.cache.append(new_level)"), "fire", "C02-E1"),
+        V("mesh-level-avoids-first-only", replace_expr(PS, "Av._ensure_level_mesh_pattern_basis", "p.avoids(*self.basis)", "p.avoids(self.basis[0])"), "fire", "C02-E1"),
+        V("mesh-level-wrong-length", replace_expr(PS, "Av._ensure_level_mesh_pattern_basis", "Perm.of_length(i)", "Perm.of_length(i + 1)"), "fire", "C02-E1"),
+        V("dispatch-swapped", replace_expr(PS, "Av._ensure_level", "isinstance(self.basis, Basis)", "isinstance(self.basis, MeshBasis)"), "fire-or-undecided", "C02-E1"),
+        V("compaction-too-eager", replace_expr(PS, "Av._ensure_level", "range(start, level_number - 1)", "range(start, level_number)"), "fire", "C02-E2"),
+        V("initial-level-wrong", replace_expr(PS, "Av.__new__", "[{Perm(): [0]}]", "[{Perm(): []}]"), "fire-or-undecided", "C02-E1"),
         # silent
+        V("compaction-lazier", replace_expr(PS, "Av._ensure_level", "range(start, level_number - 1)", "range(start, level_number - 2)"), "silent", note="compacting less is always safe"),
         V("reformat", reformat_only(PS), "silent"),
         V("contains-and-form", replace_stmt(PS, "Av.__contains__", "if isinstance(other, Perm): ...", "return isinstance(other, Perm) and other in self._get_level(len(other))"), "silent"),
         V("contains-or-false", replace_expr(PS, "Av.__contains__", "other in self._get_level(len(other))", "other in self._get_level(len(other)) or False"), "silent"),
@@ -314,3 +323,115 @@ def _variants():
         V("all-break-only-classical", replace_stmt(PS, "Av._all", "if first is None: ...", "if first is None:\n    if isinstance(self.basis, Basis):\n        break\n    length += 1\n    continue"), "silent",
           note="restricting the early exit to classical bases removes the known finding (the counter update inside the branch is outside the rule's shape: accepted as silent or undecided)"),
     ]
+
+
+# ------------------------------------------------------------------ E1/E2: shape of the ensure step
+
+
+def rule_e1(ctx: Ctx, m: SharedModel) -> None:
+    """cache[i] is level i: the cache starts with level 0 only, every missing level from len(cache) up to
+    and including the requested one is built in ascending order, exactly one level is appended per step
+    (necessary for 'jump ahead / go back / ask membership first')."""
+    from ..affine import N, ONE, NotAffine, Poly, poly_of
+
+    repo = ctx.repo
+    cls_f = repo.need_method("Av", "_ensure_level_classical_pattern_basis")
+    mesh_f = repo.need_method("Av", "_ensure_level_mesh_pattern_basis")
+    ens = repo.need_method("Av", "_ensure_level")
+    # initial cache: exactly level 0 = {empty permutation}
+    new = repo.need_method("Av", "__new__")
+    inits = [n for n in walk_no_nested(new.node) if isinstance(n, ast.Call) and call_name(n) and call_name(n)[-1] == "__new__" and len(n.args) >= 3]
+    if len(inits) == 1 and unparse(inits[0].args[2]).replace(" ", "") in ("[{Perm():[0]}]",):
+        ctx.ok("C02-E1", new.where, "a new class starts with level 0 = {empty permutation} only", inits[0], new)
+    else:
+        raise AnalysisError(f"{new.where}: initial level cache not recognised")
+    want_rng = lambda lv: (f"range(len(self.cache), {lv} + 1)",)
+    # classical
+    lv = cls_f.params[1]
+    loops = [st for st in cls_f.body if isinstance(st, ast.For)]
+    if len(loops) != 1:
+        raise AnalysisError(f"{cls_f.where}: level loop not recognised")
+    lp = loops[0]
+    if unparse(lp.iter) in want_rng(lv):
+        ctx.ok("C02-E1", cls_f.where, f"levels len(cache) .. {lv} are built in ascending order", lp, cls_f)
+    else:
+        ctx.violation("C02-E1", cls_f, lp, f"levels are built over `{unparse(lp.iter)}`; every missing level from len(self.cache) up to and including {lv} must be built, in ascending order")
+    appends = [s for s in m.sites if s.fi is cls_f and s.kind == "field" and s.op in ("append",)]
+    if len(appends) == 1 and lp.body and appends[0].stmt is lp.body[-1] and len(appends[0].node.args) == 1:
+        ctx.ok("C02-E1", cls_f.where, "exactly one level is appended per step, unconditionally, as the last action of the step", appends[0].stmt, cls_f)
+    else:
+        ctx.violation("C02-E1", cls_f, lp, "a step of the level loop does not append exactly one level as its last, unconditional action: cache[i] would no longer be level i")
+    lasts = [st for st in lp.body if isinstance(st, ast.Assign) and unparse(st.value) == "self.cache[-1]"]
+    if len(lasts) == 1:
+        ctx.ok("C02-E1", cls_f.where, "each new level is built from the previous (last) level", lasts[0], cls_f)
+    else:
+        ctx.violation("C02-E1", cls_f, lp, "a new level is not built from the last cached level self.cache[-1]")
+    # mesh
+    lvm = mesh_f.params[1]
+    ext = [s for s in m.sites if s.fi is mesh_f and s.kind == "field" and s.op == "extend"]
+    ok = False
+    if len(ext) == 1 and isinstance(ext[0].node.args[0], ast.GeneratorExp):
+        ge = ext[0].node.args[0]
+        g = ge.generators[0]
+        var = unparse(g.target)
+        if unparse(g.iter) in want_rng(lvm) and not g.ifs and isinstance(ge.elt, ast.DictComp):
+            dc = ge.elt
+            inner = dc.generators[0]
+            ok = unparse(inner.iter) == f"Perm.of_length({var})" and len(inner.ifs) == 1 and unparse(inner.ifs[0]) == f"{unparse(inner.target)}.avoids(*self.basis)" and unparse(dc.key) == unparse(inner.target)
+    if ok:
+        ctx.ok("C02-E1", mesh_f.where, "mesh bases: level i = every permutation of length i that avoids the whole basis, for i = len(cache) .. requested", ext[0].stmt, mesh_f)
+    else:
+        ctx.violation("C02-E1", mesh_f, ext[0].stmt if ext else mesh_f.node, "mesh levels are not `{p for p in Perm.of_length(i) if p.avoids(*self.basis)}` for i = len(self.cache) .. requested level")
+    # dispatch
+    disp = [st for st in ens.body if isinstance(st, ast.If)]
+    if len(disp) == 1 and unparse(disp[0].test) == "isinstance(self.basis, Basis)" and cls_f.name in unparse(disp[0].body[0]) and mesh_f.name in unparse(disp[0].orelse[0]):
+        ctx.ok("C02-E1", ens.where, "classical bases -> insertion construction, everything else -> filtering", disp[0], ens)
+    elif len(disp) == 1 and unparse(disp[0].test) == "isinstance(self.basis, Basis)":
+        ctx.violation("C02-E1", ens, disp[0], "the two level constructions are dispatched to the wrong kind of basis")
+    else:
+        raise AnalysisError(f"{ens.where}: dispatch on the kind of basis not recognised")
+    # ---- E2: compaction leaves the last two levels expandable
+    lvl = ens.params[1]
+    comp = [st for st in ens.body if isinstance(st, ast.For)]
+    if not comp:
+        ctx.ok("C02-E2", ens.where, "no compaction")
+        return
+    cp = comp[0]
+    it = cp.iter
+    if not (isinstance(it, ast.Call) and call_name(it) == ("range",) and len(it.args) == 2):
+        raise AnalysisError(f"{ens.where}: compaction range not recognised")
+    try:
+        stop = poly_of(it.args[1], {lvl: Poly.sym("L")})
+    except NotAffine:
+        raise AnalysisError(f"{ens.where}: compaction bound not affine")
+    slack = stop - (Poly.sym("L") - ONE)
+    if slack.is_const() and slack.coef() <= 0:
+        ctx.ok("C02-E2", ens.where, f"compaction stops before level {lvl} - 1: the last two levels keep their insertion data (needed by the next expansion)", cp, ens)
+    elif slack.is_const():
+        ctx.violation("C02-E2", ens, cp, f"compaction runs up to `{unparse(it.args[1])}` (exclusive) and strips the insertion data of level {lvl} - 1 or {lvl}, which the next expansion reads: a later, longer query fails")
+    else:
+        raise AnalysisError(f"{ens.where}: compaction bound `{unparse(it.args[1])}` not comparable with {lvl} - 1")
+    idx = unparse(cp.target)
+    tgt_ok = len(cp.body) == 1 and isinstance(cp.body[0], ast.Assign) and unparse(cp.body[0].targets[0]) == f"self.cache[{idx}]"
+    if not tgt_ok:
+        raise AnalysisError(f"{ens.where}: compaction body not recognised")
+    # the lower bound is computed before the levels are added (otherwise already needed data of new levels is safe anyway)
+    start_txt = unparse(it.args[0])
+    starts = [st for st in ens.body if isinstance(st, ast.Assign) and unparse(st.targets[0]) == start_txt]
+    if starts and ens.body.index(starts[0]) < ens.body.index(disp[0]) and unparse(starts[0].value) in ("max(0, len(self.cache) - 2)",):
+        ctx.ok("C02-E2", ens.where, "compaction starts at the first level that may still hold insertion data (two before the old end)", starts[0], ens)
+    elif starts:
+        ctx.note(f"C02-E2: compaction start `{unparse(starts[0].value)}` not in the recognised form (only efficiency depends on it)")
+
+
+_OLD_RUN = run
+
+
+def run(ctx: Ctx) -> None:  # noqa: F811
+    _OLD_RUN(ctx)
+    model = SharedModel(ctx.repo, "Av")
+    ctx.run(rule_e1, ctx, model)
+
+
+FLOORS["C02-E1"] = 6
+FLOORS["C02-E2"] = 1
